@@ -309,7 +309,7 @@ CHECKS = {
         text='Model Sync/Sync.v of connectBlock / disconnectBlock / addRelevantTx / PutSyncedTo (window map with pruning at MaxReorgDepth) / syncWithChain '
              '(first synchronisation of a wallet whose birthday block is unknown: re-fetch the stamp at the located height, SetSyncedTo and '
              'SetBirthdayBlock in one transaction; the rollback loop; the birthday-reset branch when the rollback crosses the birthday block; one '
-             'waitForSync attempt as `startup first backend hdr loc`) / catchUpHashes, and of recovery inside start-up (recovery windows 3-20 generated). 32 theorems: for every valid evolution (reorg of any depth whose '
+             'waitForSync attempt as `startup first backend hdr loc`) / catchUpHashes, and of recovery inside start-up (recovery windows 3-20 generated). 33 theorems: for every valid evolution (reorg of any depth whose '
              'lowest replaced block is inside the stored window, wallet transactions anywhere in the new blocks, notified before or after BlockConnected) '
              'and every stream obtained from its notifications by inserting stale, repeated or future disconnects, redundant transaction notifications and '
              'rescan notifications for already-reached heights, no handler fails and afterwards synced-to = backend tip, every height in [lo, tip] stores '
@@ -334,7 +334,7 @@ CHECKS = {
              'walk both branches back to the common ancestor, disconnect, fast-forward) over a block tree; C15_bitcoind_reorg_emits_the_evolution: for every tree that knows both '
              'branches, any depth and any branch lengths, the procedure emits EXACTLY emit c e (one BlockDisconnected per detached block, tip first, each with its own hash, '
              'height and time, then one BlockConnected per new block upward) and ends on the new tip; C15_wallet_follows_bitcoind_reorg composes it with C15_follows_evolution '
-             '(wallet consistent with the new best chain afterwards); C15_bitcoind_reorg_refuted_at_pinned keeps the pre-fix witness; premise regenerated from source '
+             '(wallet consistent with the new best chain afterwards); C15_bitcoind_poller_handover (the poller hands over one block per height: the first runs the reorg procedure, the rest are successors - together the stream of the whole evolution); C15_bitcoind_reorg_refuted_at_pinned keeps the pre-fix witness; premise regenerated from source '
              '(bitcoind_reorg_disconnects_own_hash; source shape, else probe). Tie: harness/cmd/c15bd runs the REAL BitcoindConn (RPC polling) + BitcoindClient (ntfnHandler, reorg, '
              'ConcurrentQueue) against a loopback stub node whose chain is extended and reorganised (depth 1-5, same-height reorgs the poller cannot see, back-to-back reorgs), '
              'hands every emitted notification to a real wallet, judges the stream and the wallet (synced-to, stored hashes, confirmed records) against the node and compares the '
